@@ -105,7 +105,7 @@ Definition dec_config : dec xconfig := fun w =>
 
 Definition enc_event (e : oevent) : wire :=
   match e with
-  | EvText s off line col => 0 :: enc_str s ++ enc_nat off ++ enc_nat line ++ enc_nat col
+  | EvText _ s off line col => 0 :: enc_str s ++ enc_nat off ++ enc_nat line ++ enc_nat col
   | EvField idx ph off line col => 1 :: enc_N idx ++ enc_str ph ++ enc_nat off ++ enc_nat line ++ enc_nat col
   end.
 
